@@ -215,6 +215,15 @@ func VH_C17_gate() {
 		rt.Assert(pt == snap.Title && ps == snap.Status, "returned-bug-reflects-the-change")
 	}
 	rt.Observe("m", m)
+
+	// an accepted, authenticated mutation does not authenticate what follows: the same
+	// resolver, cache and process refuse a later mutation that comes without a user, and
+	// nothing is written (authentication is a fact about the request, not about the server)
+	fx.Repo.Log = nil
+	fx.Repo.FS.Log = nil
+	_, aerr := r.AddComment(context.Background(), models.AddCommentInput{Prefix: fx.Bug.String(), Message: "anonymous"})
+	rt.Assert(aerr != nil, "later-anonymous-mutation-refused")
+	rt.Assert(len(fx.Repo.Log) == 0 && len(fx.Repo.FS.Log) == 0, "later-anonymous-mutation-changes-nothing")
 }
 
 // VH_C20_identities: paging through allIdentities page by page (each page is a separate
